@@ -17,6 +17,10 @@ import (
 	"time"
 
 	"github.com/cloudwego/thriftgo/generator"
+	"github.com/cloudwego/thriftgo/generator/backend"
+	"github.com/cloudwego/thriftgo/generator/golang"
+	"github.com/cloudwego/thriftgo/parser"
+	"github.com/cloudwego/thriftgo/plugin"
 
 	"verifharness/internal/vl"
 )
@@ -37,6 +41,59 @@ type cfgT struct {
 	// Persist end to end only: the previous generation was written by an earlier Persist call
 	// into the same directory (otherwise by the harness directly)
 	PrevViaPersist bool `json:"previous_via_persist,omitempty"`
+	// the post-processor is the REAL golang.GoBackend.PostProcess (gofmt of *.go files) instead of the
+	// harness' own "content#path"; injected pp failures still come from the wrapper
+	RealPP bool `json:"real_go_backend,omitempty"`
+}
+
+// ---- the real Go backend as post-processor
+
+func newGoBackend() *golang.GoBackend {
+	be := new(golang.GoBackend)
+	res := be.Generate(&plugin.Request{
+		AST:                 &parser.Thrift{Filename: "x.thrift"},
+		GeneratorParameters: []string{"skip_go_gen"}, // only initialises the backend's options and logger
+	}, backend.DummyLogFunc())
+	if e := res.GetError(); e != "" {
+		panic("cannot initialise the Go backend: " + e)
+	}
+	return be
+}
+
+var (
+	seqMu      sync.Mutex
+	seqBackend *golang.GoBackend
+	seqCache   = map[string]string{}
+)
+
+// seqPP: PostProcess of ONE file computed sequentially (nothing else running) on a backend of its own, copied
+// at once — what the write of that file must receive, whatever the other files and the schedule are.
+func seqPP(path, content string) string {
+	seqMu.Lock()
+	defer seqMu.Unlock()
+	key := path + "\x00" + content
+	if v, ok := seqCache[key]; ok {
+		return v
+	}
+	if seqBackend == nil {
+		seqBackend = newGoBackend()
+	}
+	out, err := seqBackend.PostProcess(path, []byte(content))
+	if err != nil {
+		panic(err)
+	}
+	v := string(out)
+	seqCache[key] = v
+	return v
+}
+
+// warm computes the expected contents before any goroutine of the run exists.
+func (c cfgT) warm() {
+	if c.RealPP {
+		for k := range c.Jobs {
+			c.expected(k)
+		}
+	}
 }
 
 func (c cfgT) toks() string {
@@ -45,6 +102,14 @@ func (c cfgT) toks() string {
 		conc = 0
 	}
 	sb := &strings.Builder{}
+	if c.RealPP && c.HasPP {
+		// pp flag 2: the post-processing function is given as a table (path, content) -> seqPP
+		fmt.Fprintf(sb, "%d 2 %d", conc, len(c.Jobs))
+		for k, j := range c.Jobs {
+			fmt.Fprintf(sb, " %s %s %s %s", vl.Hex(j.Path), vl.Hex(j.Content), j.Fail, vl.Hex(c.expected(k)))
+		}
+		return sb.String()
+	}
 	fmt.Fprintf(sb, "%d %s %d", conc, vl.B(c.HasPP), len(c.Jobs))
 	for _, j := range c.Jobs {
 		fmt.Fprintf(sb, " %s %s %s", vl.Hex(j.Path), vl.Hex(j.Content), j.Fail)
@@ -78,6 +143,9 @@ func (c cfgT) failPP(k int) bool { return c.HasPP && (c.Jobs[k].Fail == "p" || c
 func (c cfgT) failWr(k int) bool { return c.Jobs[k].Fail == "w" || c.Jobs[k].Fail == "b" }
 func (c cfgT) fails(k int) bool  { return c.failPP(k) || c.failWr(k) }
 func (c cfgT) expected(k int) string {
+	if c.HasPP && c.RealPP {
+		return seqPP(c.Jobs[k].Path, c.Jobs[k].Content)
+	}
 	if c.HasPP {
 		return c.Jobs[k].Content + "#" + c.Jobs[k].Path
 	}
@@ -114,6 +182,7 @@ type writeRec struct {
 
 type runner struct {
 	cfg     cfgT
+	real    *golang.GoBackend
 	pathIdx map[string]int
 	free    bool
 	jitter  *uint64
@@ -157,6 +226,10 @@ func newRunner(cfg cfgT) *runner {
 	for i, j := range cfg.Jobs {
 		r.pathIdx[j.Path] = i
 	}
+	if cfg.RealPP && cfg.HasPP {
+		cfg.warm()
+		r.real = newGoBackend()
+	}
 	r.ppCalls = make([]int, len(cfg.Jobs))
 	r.wrCalls = make([]int, len(cfg.Jobs))
 	r.arrivals = make(chan *point, 8*len(cfg.Jobs)+64)
@@ -199,6 +272,9 @@ func (r *runner) PostProcess(path string, content []byte) ([]byte, error) {
 	if r.cfg.failPP(k) {
 		return nil, &injErr{k, "pp"}
 	}
+	if r.real != nil {
+		return r.real.PostProcess(path, content)
+	}
 	out := make([]byte, 0, len(content)+1+len(path))
 	out = append(out, content...)
 	out = append(out, '#')
@@ -224,6 +300,9 @@ func (r *runner) write(path string, content []byte) error {
 		return &injErr{k, "write"}
 	}
 	r.spin()
+	if r.real != nil && r.free {
+		time.Sleep(100 * time.Microsecond) // the write takes a while before it consumes the content
+	}
 	r.mu.Lock()
 	r.writes = append(r.writes, writeRec{k, path, string(content)})
 	r.mu.Unlock()
@@ -772,6 +851,11 @@ var runMu sync.Mutex
 func runControlled(cfg cfgT, steps []string, ch chooser, watchdog time.Duration) (*outcome, []string) {
 	runMu.Lock()
 	defer runMu.Unlock()
+	if cfg.RealPP {
+		// one P: what a worker hands back to a sync.Pool is what the next worker gets, so whether two workers
+		// share a buffer is decided by the schedule the controller picks, not by luck
+		defer runtime.GOMAXPROCS(runtime.GOMAXPROCS(1))
+	}
 	base := runtime.NumGoroutine()
 	r := newRunner(cfg)
 	r.start()
